@@ -16,7 +16,8 @@ with tempfile.TemporaryDirectory(dir="/var/tmp") as td:
     xml = os.path.join(td, "j.xml")
     env = dict(os.environ)
     env["PYTHONPATH"] = os.path.join(repo, "src")
-    env.pop("YADISM_VERIF", None)
+    for k in [k for k in env if k.startswith("YADISM_") or k in ("PYTHONWARNINGS",)]:
+        env.pop(k)
     env["NUMBA_CACHE_DIR"] = os.path.join(td, "nb") if repo != "/repo" else env.get("NUMBA_CACHE_DIR", "")
     if not env["NUMBA_CACHE_DIR"]:
         env.pop("NUMBA_CACHE_DIR")
